@@ -689,6 +689,7 @@ def record_discipline(rep, prog, tag):
     n_rec = 0
     rec = rec_of(prog)
     RN = rec["short"]
+    makers = set()
     for f in prog.fns:
         imp = prog.fn_impl(f)
         own_clone = bool(imp and imp.get("trait") == "std::clone::Clone" and imp["self_ty"].get("path") == rec["record"])
@@ -704,6 +705,7 @@ def record_discipline(rep, prog, tag):
                 ok = lmv.endswith("Unlocked{}") and pmv.endswith("ReadWrite{}")
                 rep.ob("RECORD", "%s|record created as (Unlocked, ReadWrite)%s" % (f.path, tag), ok,
                        "record literal with lock mode %s, protect mode %s" % (lmv, pmv), loc="%s:%s" % (f.file, _ln(st)))
+                makers.add(f.key)
         for c in f.calls():
             if f.blocks[c.bb]["cleanup"]:
                 continue
@@ -714,6 +716,25 @@ def record_discipline(rep, prog, tag):
             if c.path in ("std::mem::replace", "std::mem::take") and (RN + "<") in c.full:
                 rep.violation("RECORD", "%s|record moved out%s" % (f.path, tag), "record moved out of its handle by %s" % c.path, loc=c.loc())
     rep.ob("RECORD", "record literals exist" + tag, n_rec >= 1, "%d storage-record literal(s) in the crate" % n_rec)
+    # a fresh record says (Unlocked, ReadWrite): the handle it is wrapped in must say the same in its type.
+    # The constructor is generic over the markers, so every instantiation (call site) is checked.
+    n_inst = 0
+    for f in prog.fns:
+        for c in f.calls():
+            if f.blocks[c.bb]["cleanup"]:
+                continue
+            for t in prog.callee_fns(c):
+                if t.key not in makers:
+                    continue
+                pp = prog_parse(c.full.replace("::<", "<", 1).rsplit("::", 1)[0]) if "Protected::<" in c.full else None
+                if pp is None:
+                    continue
+                n_inst += 1
+                pm_, lm_ = pp[1].split("::")[-1], pp[2].split("::")[-1]
+                rep.ob("RECORD", "%s|fresh record wrapped as <ReadWrite, Unlocked>%s" % (f.path, tag), (pm_, lm_) == ("ReadWrite", "Unlocked"),
+                       "a handle over fresh storage (record Unlocked / ReadWrite, pages read-write and unlocked) is built at type Protected<_, %s, %s>" % (pm_, lm_),
+                       loc=c.loc())
+    rep.floor("instantiations of the fresh-record constructor" + tag, n_inst, 3)
 
 
 def _ln(st):
